@@ -19,7 +19,7 @@ pub struct Parser {
     current: Option<(usize, Token)>,
     prev_pos: (usize, bool), // save previous token position for rollback
     is_started: bool,
-    depth: usize, // nested calls of parse_stmt / parse_if_stmt / unray_expression / type_or_none
+    depth: usize, // open calls of parse_stmt, parse_if_stmt, unray_expression, type_or_none, parse_lit_value
 }
 
 impl Parser {
@@ -59,9 +59,10 @@ impl Parser {
     const MAX_NESTING: usize = 192;
 
     /// Every cycle of the grammar passes through a statement, an if statement, a
-    /// unary expression or a type: counting how many of them are open bounds the
-    /// call stack however the input nests (expr_level does not: it is reset in
-    /// control clause headers and ignores unary operators, labels and else-if).
+    /// unary expression, a type or a literal value: counting how many of them are
+    /// open bounds the call stack however the input nests (expr_level does not: it
+    /// is reset in control clause headers and ignores unary operators, labels and
+    /// else-if).
     fn nested<T>(&mut self, f: fn(&mut Self) -> Result<T>) -> Result<T> {
         self.depth += 1;
         let result = if self.depth > Self::MAX_NESTING {
@@ -1386,6 +1387,10 @@ impl Parser {
     }
 
     fn parse_lit_value(&mut self) -> Result<ast::LiteralValue> {
+        self.nested(Self::parse_lit_value_nested)
+    }
+
+    fn parse_lit_value_nested(&mut self) -> Result<ast::LiteralValue> {
         let mut values = vec![];
         self.inc_expr_level()?;
         let pos0 = self.expect(Operator::BraceLeft)?;
